@@ -109,6 +109,17 @@ CLAIMS = {
         note="PARTIAL: the concurrent protocol (bucket/element locks, upgrade and restart paths, check_mask_race) is explored, not proved; the element locks are spin_rw_mutex, whose exclusion is proved under C08. "
              "Iteration, rehash(), clear(), swap and move are not modelled.",
         ref="4/C10"),
+    "C12": dict(
+        technique="Coq proof: sequential refinement of the split-ordered list (sorted list with dummy/value nodes, lazy bucket initialisation, doubling) to a set; bit-reversal arithmetic of the split order "
+                  "proved for all 64-bit hashes; white-box differential tie; gate-driven exploration of the four real containers",
+        text="Proved for every initial bucket count and every sequence of insert/find: results equal a set's, the list stays sorted by order key, value nodes carry pairwise different keys and are exactly the "
+             "successfully inserted keys (a traversal meets each once). Proved for all 64-bit hashes and all power-of-two bucket counts: a bucket's dummy node precedes the value node of every hash of that bucket, "
+             "a bucket's dummy follows its parent's, and searching from such a dummy equals searching the whole list. Tie: sequential runs of the real unordered set / multiset (hash(k)=k) compared with the "
+             "model result by result and node by node (order keys, dummy nodes, bucket count). Concurrency: unordered set/multiset and concurrent_set/multiset run under the atomic-access gate with a one-winner / "
+             "contents / count / traversal oracle, and with real threads; the skip list's level structure is checked white-box after sequential inserts.",
+        note="PARTIAL: the lock-free insertion protocol (CAS retry) is explored, not proved; the skip list (concurrent_map/set) has no Coq model — structure and concurrency oracles only; unsafe_erase, merge, "
+             "rehash/reserve and multimap ordering of equal keys are outside the model's theorems (multi containers are tied but only the unique container is proved).",
+        ref="4/C12"),
     "C20": dict(
         technique="Coq proof: exact characterisation of the reachable configurations of the suspend/resume handshake (inductive invariant, all interleavings); real suspend/resume runs with racing resumers under an exactly-once oracle",
         text="For every interleaving of the suspending thread's exchange(suspended)/self-resume with a resume() from anywhere (incl. the suspend callback itself): at most one resume task is pushed, "
